@@ -26,7 +26,8 @@ PROPERTY = "C19"
 LEVEL = "exploration"
 RULE = (
     "address lists of 1..3 entries (thorough 1..4) over families {v4, v6} in every order; per attempt an outcome in {connects, "
-    "ECONNREFUSED, hangs (ETIMEDOUT at t=100), socket() fails, bind() fails}; the completion of every attempt and one external "
+    "ECONNREFUSED, hangs (ETIMEDOUT at t=100), socket() fails, bind() fails}, plus a local address of one family only with a "
+    "multi-family remote host; the completion of every attempt and one external "
     "task.cancel() are placed at every loop-iteration boundary and relative to the 0.25 s stagger timer (apply now | let the timer "
     "fire | coincide with it); busy placements are costed deviations (bound 2 quick / 3 thorough); sequential "
     "_create_connection_impl likewise; distinct_nontrivial = distinct (address list, outcomes, result class, sockets created, "
@@ -102,7 +103,11 @@ def run_race(ctx: Ctx, cfg: dict) -> dict:
     # the library reorders the list: creation index k corresponds to the k-th STARTED attempt; faults are attached to ports
     port_outcome = {9000 + i: o for i, o in enumerate(outcomes)}
     st: dict[str, Any] = {"task": None, "cancel_applied": False, "ok_applied": [], "order": []}
-    local = [( _real_socket.AF_INET, _real_socket.SOCK_STREAM, 6, "", ("127.0.0.9", 0)), (_real_socket.AF_INET6, _real_socket.SOCK_STREAM, 6, "", ("::9", 0, 0, 0))] if "nobind" in outcomes else None
+    _l4 = (_real_socket.AF_INET, _real_socket.SOCK_STREAM, 6, "", ("127.0.0.9", 0))
+    _l6 = (_real_socket.AF_INET6, _real_socket.SOCK_STREAM, 6, "", ("::9", 0, 0, 0))
+    # local address: none / both families / ONE family only (an attempt of the other family then fails with
+    # "no matching local address" after its socket was created)
+    local = {"v4only": [_l4], "v6only": [_l6], "both": [_l4, _l6]}.get(cfg.get("local") or ("both" if "nobind" in outcomes else ""), None)
 
     shim = _Shim(world, set(), created)
 
@@ -285,6 +290,13 @@ def configs(tier: str) -> list[dict]:
                 continue
             for cancel in (False, True):
                 out.append({"mode": "seq", "fams": ["4", "6", "4"][:n], "outcomes": list(outs), "cancel": cancel})
+    # a local address of ONE family with a multi-family remote host
+    for mode in ("race", "seq"):
+        for fams in (("4", "6"), ("6", "4"), ("6", "4", "6"), ("4", "4", "6")):
+            for outs in itertools.product(("ok", "refused"), repeat=len(fams)):
+                for loc in ("v4only", "v6only"):
+                    for cancel in (False, True):
+                        out.append({"mode": mode, "fams": list(fams), "outcomes": list(outs), "cancel": cancel, "local": loc})
     return out
 
 
@@ -307,7 +319,7 @@ def run_job(job: dict) -> JobResult:
             bad = oracle(cfg, obs)
             res.outcome(f"{cfg['mode']}-{obs['result'][0] if 'result' in obs else obs['status']}" if bad is None else "VIOLATION:" + bad)
             shape = tuple((k, names) for _s, k, names in obs["trace"])
-            res.nontrivial.add(digest((cfg["mode"], tuple(cfg["fams"]), tuple(cfg["outcomes"]), obs.get("result"), obs.get("created"), shape)))
+            res.nontrivial.add(digest((cfg["mode"], tuple(cfg["fams"]), tuple(cfg["outcomes"]), cfg.get("local"), obs.get("result"), obs.get("created"), shape)))
             if bad is not None and (bad not in found or len(ctx.choices) < len(found[bad][0].choices)):
                 found[bad] = (ctx, obs)
 
@@ -318,7 +330,7 @@ def run_job(job: dict) -> JobResult:
         for bad, (ctx, obs) in found.items():
             res.violations.append(Violation(
                 f"{cfg['mode']}/{bad}",
-                f"{cfg['mode']} addresses={cfg['fams']} outcomes={cfg['outcomes']} cancel={cfg['cancel']}: result={obs.get('result')} open={obs.get('open')} "
+                f"{cfg['mode']} addresses={cfg['fams']} outcomes={cfg['outcomes']} local={cfg.get('local')} cancel={cfg['cancel']}: result={obs.get('result')} open={obs.get('open')} "
                 f"created={obs.get('created')} ok_applied={obs['ok_applied']} schedule={obs['trace']} status={obs['status']} {obs['value']} choices={ctx.choices}",
                 {"cfg": cfg, "choices": list(ctx.choices)},
             ))
